@@ -111,6 +111,27 @@ partial def run (st : St) : List String → St
             run (emit { st with s := s', signed := sg } (encBytes acc ++ " " ++ encNat n ++ " " ++ encBool err)) rest'
         | _, _, _, _, _, _, _ => { st with bad := true }
       | _ => { st with bad := true }
+    else if op == "sweep" then
+      -- sweep date msgid bm br ba bs sig : every sink limit k in [0, L]; reply: L and the list of k
+      -- at which NOT (k < L → err ∧ n = k ∧ accepted = first k bytes) ∧ (k = L → ¬err ∧ n = L)
+      match rest with
+      | sig :: rest' =>
+        match decBytes ctype, decBytes charset, decBytes enc, decBytes desc, decBytes content, decBytes fails,
+              decBytes sig with
+        | some date, some msgid, some bm, some br, some ba, some bs, some sg =>
+          let e : Entropy := { date := date, msgid := msgid, bMixed := bm, bRelated := br, bAlt := ba, bSigned := bs, signature := sg }
+          match writeTo st.s e none with
+          | none => run (emit st "early-error") rest'
+          | some (full, _, _, _) =>
+            let L := full.length
+            let bad := (List.range (L + 1)).filter (fun k =>
+              match writeTo st.s e (some k) with
+              | none => true
+              | some (acc, n, err, _) =>
+                if k < L then !(err && n == k && acc == full.take k) else !(!err && n == L && acc == full))
+            run (emit st (encNat L ++ " " ++ encList (bad.map natToDec))) rest'
+        | _, _, _, _, _, _, _ => { st with bad := true }
+      | _ => { st with bad := true }
     else { st with bad := true }
   | _ => { st with bad := true }
 
